@@ -133,4 +133,10 @@ def reviewedPackageVars : List Site := [
   ("types/hostList.go", "", "slice", "hostListSerapators"),
   ("validation/validation.go", "", "map", "checks")]
 
+/-- maps declared in a function that a range-over-map body both reads and writes under a key that does not mention the
+loop's key variable (a cache, a "seen" set: what one iteration stores is seen by the next, so the iteration order can
+reach the result).  None on the reviewed tree; seed C02-4 (`parsed[envFile.Path]` in `WithServicesEnvironmentResolved`)
+is exactly such a site. -/
+def reviewedLoopCarriedMaps : List Site := []
+
 end CV.Det.Spec
